@@ -252,6 +252,9 @@ func (g *gemExtension) compare(e extension) int {
 		if ac < bc {
 			return -1
 		}
+		if ac == versionNumeric && a.int == b.int {
+			continue // Same number spelled differently, such as "01" and "1".
+		}
 		if ac == versionNumeric {
 			return sgn64(a.int, b.int)
 		}
